@@ -149,6 +149,11 @@ Definition fs_sort (l : list nat) : list nat := fold_right fs_insert [] l.
 
 Definition created_ids (ps : list piece) : list nat := fs_sort (map fst (snd (ops_pieces [] ps))).
 
+(* spec of "the complete new catalog": patch i holds the records of its pieces, in order *)
+Definition recs_for (ps : list piece) (i : nat) : list nat :=
+  flat_map (fun pc => if fst pc =? i then snd pc else []) ps.
+Definition has_piece (ps : list piece) (i : nat) : bool := existsb (fun pc => fst pc =? i) ps.
+
 (* body: everything before patch_ids.bin *)
 Definition ops_create_body (ps : list piece) : list fop := Put PRoot Dir :: fst (ops_pieces [] ps).
 Definition ops_create_ids (ps : list piece) : list fop :=
